@@ -424,19 +424,30 @@ def judge_cast(label, c, r, src, checks):
     return n, viol[:2], []
 
 
+def compile_retry(d, files):
+    """the CLI binary is briefly absent while another check's build_cli() relinks it: wait instead of aborting the whole run"""
+    for attempt in range(40):
+        try:
+            return R.compile_capy(d, files)
+        except C.Inconclusive:
+            if attempt == 39:
+                raise
+            time.sleep(1.5)
+
+
 def run_job(arg):
     work, idx, job = arg
     d = os.path.join(work, f"c{idx}")
     if job[0] == "cast":
         src, checks = job[2], job[3]
-        c = R.compile_capy(d, {"main.capy": src})
+        c = compile_retry(d, {"main.capy": src})
         r = R.link_and_run(d, c.obj) if c.accepted else None
         return job, c, r, src
     if job[0] == "control":
-        return job, R.compile_capy(d, {"main.capy": job[2]}), None, job[2]
+        return job, compile_retry(d, {"main.capy": job[2]}), None, job[2]
     cat, form, e, p = job[0], job[1], job[2], job[3]
     src = program(form, e, p, provided=None if cat == "neg" else job[4])
-    return job, R.compile_capy(d, {"main.capy": src}), None, src
+    return job, compile_retry(d, {"main.capy": src}), None, src
 
 
 def run(tier, seed):
